@@ -20,7 +20,8 @@ import pandas as pd
 from .. import core
 
 DET_KINDS = ["pelt", "mw", "sbs", "cbs", "capa", "mvcapa", "stat"]
-SCORER_KINDS = ["l2", "l2-fixed", "gvar", "gvar-fixed", "gcov", "gcov-fixed", "cusum", "chg-l2", "sav-l2", "sav-gvar", "l2saving", "loc-l2"]
+SCORER_KINDS = ["l2", "l2-fixed", "gvar", "gvar-fixed", "gcov", "gcov-fixed", "cusum", "chg-l2", "sav-l2", "sav-gvar", "l2saving", "loc-l2",
+                "gvar-fixed-arrays"]
 
 
 def h(obj):
@@ -52,6 +53,9 @@ def mk_scorer(kind, shared=None):
     return {
         "l2": lambda: L2Cost(), "l2-fixed": lambda: L2Cost(param=0.75), "gvar": lambda: GaussianVarCost(),
         "gvar-fixed": lambda: GaussianVarCost(param=(0.5, 2.0)), "gcov": lambda: GaussianCovCost(),
+        # hyper-parameters given as the user's own arrays, one variance far below the 1e-16 floor of the optimal-parameter cost
+        # (a fixed variance is used as given); fit must leave those arrays alone
+        "gvar-fixed-arrays": lambda: GaussianVarCost(param=(np.array([0.5]), np.array([1e-18]))),
         "gcov-fixed": lambda: GaussianCovCost(param=(1.5, 2.0)), "cusum": lambda: CUSUM(),
         "chg-l2": lambda: ChangeScore(shared or L2Cost()), "sav-l2": lambda: Saving(L2Cost(param=0.5)),
         "sav-gvar": lambda: Saving(GaussianVarCost(param=(0.0, 1.0))), "l2saving": lambda: L2Saving(),
@@ -83,10 +87,17 @@ def mk_det(kind, prm, cost=None, inner=None):
         return CircularBinarySegmentation(cost, threshold_scale=s, min_segment_length=m)
     sc = s if s is not None else 0.7
     sav = GaussianVarCost(param=(0.0, 1.0)) if prm.get("saving") == "gvar" else None
+    psav = None
+    if prm.get("saving") == "gcov" and kind == "mvcapa":  # MVCAPA only takes univariate savings
+        sav = GaussianVarCost(param=(0.0, 1.0))
+    elif prm.get("saving") == "gcov":  # multivariate collective saving and a point saving around the same non-zero mean
+        from skchange.costs import GaussianCovCost, L2Cost
+
+        sav, psav = GaussianCovCost(param=(1.5, 2.0)), L2Cost(param=1.5)
     if kind == "capa":
-        return CAPA(sav, collective_penalty_scale=sc, point_penalty_scale=sc, min_segment_length=max(m, 2))
+        return CAPA(sav, psav, collective_penalty_scale=sc, point_penalty_scale=sc, min_segment_length=max(m, 2))
     if kind == "mvcapa":
-        return MVCAPA(sav, collective_penalty=prm.get("cfam", "combined"), point_penalty=prm.get("pfam", "sparse"),
+        return MVCAPA(sav, psav, collective_penalty=prm.get("cfam", "combined"), point_penalty=prm.get("pfam", "sparse"),
                       collective_penalty_scale=sc, point_penalty_scale=sc, min_segment_length=max(m, 2))
     if prm.get("inner") == "shared":
         return StatThresholdAnomaliser(inner if inner is not None else mk_inner(), stat=np.mean, stat_lower=-1.0, stat_upper=1.0)
@@ -573,7 +584,7 @@ def oracle_array(c, r):
 
 def update_case(rng):
     return {"kind": rng.choice(DET_KINDS), "scale": rng.choice([0.5, 1.0, None]), "m": rng.randint(1, 3), "seed": rng.randint(0, 10**6),
-            "ov": rng.choice([0, 1, 1, 2, 5]), "index": rng.choice(["range", "offset", "datetime"]), "p": rng.randint(1, 2)}
+            "ov": rng.choice([0, 1, 1, 2, 5, "inside", "inside"]), "index": rng.choice(["range", "offset", "datetime"]), "p": rng.randint(1, 2)}
 
 
 def impl_update(c):
@@ -586,9 +597,14 @@ def impl_update(c):
     idx = {"range": pd.RangeIndex(n + k), "offset": pd.RangeIndex(100, 100 + n + k),
            "datetime": pd.date_range("2021-01-01", periods=n + k, freq="h")}[c["index"]]
     full = pd.DataFrame(A, index=idx)
-    old = full.iloc[:n]
-    new = full.iloc[n - c["ov"]:].copy()
-    new.iloc[: c["ov"]] += 0.5  # re-supplied rows carry new values: they must replace the old ones
+    if c["ov"] == "inside":  # the batch only re-supplies rows that are already remembered, with (much) larger values: no new label
+        old = full
+        new = full.iloc[8:20].copy()
+        new += 9.0
+    else:
+        old = full.iloc[:n]
+        new = full.iloc[n - c["ov"]:].copy()
+        new.iloc[: c["ov"]] += 0.5  # re-supplied rows carry new values: they must replace the old ones
     try:
         det = mk_det(c["kind"], {"scale": c["scale"], "m": c["m"]}).fit(old).update(new)
         comb = union_frames(old, new)
